@@ -195,3 +195,13 @@ Proof.
   assert (D : 0 < inject_Z (two64 - 1)) by (change 0 with (inject_Z 0); rewrite <- Zlt_Qlt; reflexivity).
   apply Qle_trans with 0; [|exact Hp]. apply Qle_shift_div_r; [exact D|]. rewrite Qmult_0_l. change 0 with (inject_Z 0). rewrite <- Zle_Qle. lia.
 Qed.
+
+(* ---- timed edges over binary64: the real-number law (an edge of duration d = n * dt is gone after n count-downs) does NOT carry over to the
+   floating-point count-down -- 0.5 - 0.1 five times leaves 2^-55 > 0, so the edge is used on a sixth step (listed finding
+   timed-edges-float-countdown-extra-step).  For a step that is a power of two the count-down is exact. *)
+From Coq Require Import PrimFloat.
+Lemma float_countdown_keeps_an_extra_step :
+  float_edge_kept 5 0x1p-1%float 0x1.999999999999ap-4%float = true /\ (inject_Z 5 * (1 # 10) == 1 # 2)%Q.
+Proof. split; [vm_compute; reflexivity|reflexivity]. Qed.
+Lemma float_countdown_exact_for_binary_steps : float_edge_kept 4 0x1p-1%float 0x1p-3%float = false /\ float_edge_kept 3 0x1p-1%float 0x1p-3%float = true.
+Proof. split; vm_compute; reflexivity. Qed.
